@@ -294,16 +294,16 @@ def string_cases(rng, tier, seed=0):
     quick = tier == "quick"
     cases = []
     for ti, (tn, _, _, kind) in enumerate(STR_TYPES):
-        vals = values_of(tn, rng, 3 if quick else 12)
+        vals = values_of(tn, rng, 3 if quick else 8)
         if quick and tn in ("SP", "SV", "SN"):
             # the readers of these types are the one of IA5String: a third of the values each, rotating with the seed
             vals = vals[(seed + ti) % 3::3]
         for v in vals:
-            docs = string_docs(tn, v, rng, 1 if quick else 4)
+            docs = string_docs(tn, v, rng, 1 if quick else 3)
             cases.append({"tn": tn, "der": der_of_string(tn, v).hex(), "value": v, "kind": kind,
                           "xdocs": [(l, d.encode("utf-8")) for l, d in docs]})
     directed = [{"u": "AT&T", "l": ["&", "<", "a&b&c"], "c": ("a", "&amp;"), "w": "€&"}, {"u": "", "l": [], "v": "", "o": b"", "bs": "", "w": ""}]
-    for i in range(6 if quick else 40):
+    for i in range(6 if quick else 24):
         v = rec_value(rng, directed[i] if i < len(directed) else None)
         docs = [("x:rec:%s:%s" % (m, lay), rec_doc(v, rng, m, lay)) for m, lay in
                 [("canon", "tight"), ("mix", "spaced"), ("allnum", "attr"), (rng.choice(MODES), rng.choice(["tight", "spaced", "attr"]))]]
